@@ -316,8 +316,9 @@ def make_subset_data(data, pixels=None, return_selection=False, seed=None):
     subset = flat(data).isel(flat=selection)
     if not hasattr(data, 'flat'):
         subset = copy_metadata(data, subset, do_coords=False)
-    if 'original_dims' not in subset.attrs:
-        # a subset of a subset keeps the record of the image's axes
+    if not hasattr(data, 'flat') or 'original_dims' not in subset.attrs:
+        # an image records its own axes, whatever record came along in its
+        # metadata; a subset of a subset keeps the record of the image's axes
         subset.attrs['original_dims'] = {
             key: data[key].values for key in data.dims}
 
